@@ -3,7 +3,7 @@
 SD=$1; shift
 cd "$(dirname "$0")/.."
 D=$(mktemp -d /tmp/vfcross-XXXXXX)/sftp; mkdir -p "$D"; trap 'rm -rf "$(dirname "$D")"' EXIT
-rsync -a --exclude .git --exclude SEED /repo/ "$D"/
+git -C /repo archive HEAD | tar -x -C "$D"  # the committed tree, not the working tree (tools/seeded_all.sh may be patching that one)
 ( cd "$D" && patch -p1 -s < "$SD/patch.diff" ) || { echo "PATCH DOES NOT APPLY"; exit 3; }
 for id in "$@"; do
   OUT=$(VERIF_REPO="$D" ./check "$id" --tier ${SEED_TIER:-quick} 2>&1); RC=$?
